@@ -15,6 +15,7 @@
 EXTENDS Engine, TLC, FiniteSets
 
 CONSTANTS TF, MaxLen, MaxOps
+DevMerge == {"merge_keeps_readings"}
 
 Cfg(kind, name, p, p2, p3) ==
   [kind |-> kind, name |-> name, mg |-> 1, rv |-> -1, p |-> p, p2 |-> p2, p3 |-> p3,
